@@ -133,18 +133,20 @@ Section ChainId.
     intros Hc. unfold Model.Start. destruct (Z.ltb_spec c 0); [|lia].
     pose proof (CallRPC_frames backend (bs "net_version") []) as F.
     destruct (CallRPC backend _ _) as [[v|u] fr]; cbn [snd] in F; subst fr; [|reflexivity].
-    destruct v; try reflexivity; destruct (dec_hexint parse_int _); reflexivity.
+    destruct v; try reflexivity; destruct (dec_hexint parse_int _); try reflexivity;
+      destruct (_ <? _)%Z; reflexivity.
   Qed.
 
-  (* ... and its result is the chain id (truncated to 64 bits as Go's Int64() does) *)
+  (* ... and its result is the chain id, provided it fits in int64 (guard added with fix 0c95e98 of /repo:
+     a larger value is refused, see C09_chain_id_decided; before the fix it was truncated by Int64()) *)
   Theorem start_discovered c echo v n :
     (c < 0)%Z -> backend net_version_frame = reply_result echo v -> v <> JNull ->
-    dec_hexint parse_int v = Ok n ->
+    dec_hexint parse_int v = Ok n -> (Z.of_N n < 9223372036854775808)%Z ->
     Start c = (Ok (wrap64 (Z.of_N n)), [net_version_frame]).
   Proof.
-    intros Hc Hb Hv Hn. unfold Model.Start. destruct (Z.ltb_spec c 0); [|lia].
+    intros Hc Hb Hv Hn Hfit. unfold Model.Start. destruct (Z.ltb_spec c 0); [|lia].
     rewrite (CallRPC_result backend (bs "net_version") [] echo v Hb).
-    destruct v; try congruence; rewrite Hn; reflexivity.
+    destruct v; try congruence; rewrite Hn; (destruct (Z.ltb_spec (Z.of_N n) 9223372036854775808); [reflexivity|lia]).
   Qed.
 
   (* when discovery fails the process does not come up *)
